@@ -78,6 +78,13 @@ T = [
  ('C10-r4m3', '/tmp/mut-R4/mutants/3', 'C10', [('demo_test.rs', 'src/tests/sim_tests/switch_sim_tests.rs', M, 'r4m3_')]),
  ('C10-r4m4', '/tmp/mut-R4/mutants/4', 'C10', [('demo_test.rs', 'src/tests/sim_tests/switch_sim_tests.rs', M, 'r4m4_')]),
  ('C10-r4m5', '/tmp/mut-R4/mutants/5', 'C10', [('demo_test.rs', 'src/tests/sim_tests/switch_sim_tests.rs', M, 'r4m5_')]),
+ # ---- round 5: the execution side of tap-hold / one-shot / tap-dance in Layout, and handle_repeat_actual
+ ('C05-r5m1', '/tmp/mut-R5/mutants/1', 'C05', [('demo_test.rs', 'keyberon/src/layout.rs', K, 'r5m1_')]),
+ ('C05-r5m2', '/tmp/mut-R5/mutants/2', 'C05', [('demo_test.rs', 'keyberon/src/layout.rs', K, 'r5m2_')]),
+ ('C06-r5m3', '/tmp/mut-R5/mutants/3', 'C06', [('demo_test.rs', 'keyberon/src/layout.rs', K, 'r5m3_')]),
+ ('C17-r5m4', '/tmp/mut-R5/mutants/4', 'C17', [('demo_test.rs', 'keyberon/src/layout.rs', K, 'r5m4_')]),
+ ('C14-r5m5', '/tmp/mut-R5/mutants/5', 'C14', [('demo_test.rs', 'src/tests/sim_tests/repeat_sim_tests.rs', M, 'r5m5_')]),
+ ('C14-r5m6', '/tmp/mut-R5/mutants/6', 'C14', [('demo_test.rs', 'src/tests/sim_tests/repeat_sim_tests.rs', M, 'r5m6_')]),
 ]
 ENV = dict(os.environ, CARGO_TARGET_DIR=TGT, CARGO_NET_OFFLINE='true')
 
